@@ -73,13 +73,13 @@ Spec == Init /\ [][Next]_<<cs, done>>
 \* model-internal equalities
 ModelOK ==
   CASE cs.kind = "tree"  -> TreeOK(cs.tree)
-    [] cs.kind = "seq"   -> FlatOK(cs.leaves) /\ (Len(cs.leaves) <= 4 => PermInvariant(cs.leaves)) /\ AssembleAgrees(cs.leaves, TRUE)
+    [] cs.kind = "seq"   -> FlatOK(cs.leaves) /\ (Len(cs.leaves) <= 4 => PermInvariant(cs.leaves)) /\ AssembleAgrees(cs.leaves, {})
     [] OTHER             -> (TypeChecks(cs.form, cs.chain, cs.clone) => ChainOK(cs.form, cs.chain))
                             /\ (TypeChecks(cs.form, cs.chain, cs.clone) <=>
                                   ~(MultiUseOfNonClone(cs.form, cs.chain, cs.clone) \/ AtLeastInOrdered(cs.form, cs.chain) \/ ThenAfterInexact(cs.chain)))
 Out ==
   CASE cs.kind = "tree"  -> [kind |-> "tree", tree |-> Numbered(cs.tree), order |-> Leaves(Numbered(cs.tree))]
-    [] cs.kind = "seq"   -> [kind |-> "seq", leaves |-> cs.leaves, new |-> Assemble(cs.leaves, TRUE).err, offences |-> Offences(cs.leaves, TRUE)]
+    [] cs.kind = "seq"   -> [kind |-> "seq", leaves |-> cs.leaves, new |-> Assemble(cs.leaves, {}).err, offences |-> Offences(cs.leaves, {})]
     [] OTHER             -> [kind |-> "chain", form |-> cs.form, chain |-> cs.chain, clone |-> cs.clone,
                              ok |-> TypeChecks(cs.form, cs.chain, cs.clone),
                              why |-> [nonclone |-> MultiUseOfNonClone(cs.form, cs.chain, cs.clone),
